@@ -162,6 +162,16 @@ theorem PostHyp.tok_ne {D n} (hD : PostHyp D n) (j1 j2 : Nat) (d1 d2 : Delim) (h
   · have := hD.tokInc j1 j2 d1 d2 h1 h2 h; omega
   · have := hD.tokInc j2 j1 d2 d1 h2 h1 (by omega); omega
 
+theorem PostHyp.tok_lt {D n} (hD : PostHyp D n) (j1 j2 : Nat) (d1 d2 : Delim) (h1 : D[j1]? = some d1) (h2 : D[j2]? = some d2)
+    (hlt : d1.token < d2.token) : j1 < j2 := by
+  rcases Nat.lt_or_ge j1 j2 with h | h
+  · exact h
+  · exfalso
+    rcases Nat.lt_or_ge j2 j1 with h' | h'
+    · have := hD.tokInc j2 j1 d2 d1 h2 h1 h'; omega
+    · have : j1 = j2 := by omega
+      subst this; rw [h1] at h2; cases h2; omega
+
 theorem PostInv.same {D n i ts} (h : PostInv D n i ts) (p : Nat) (f : Tok → Tok) (hfn : ∀ t, (f t).nesting = t.nesting)
     (hft : ∀ t, (f t).type = t.type) : PostInv D n i (ts.modify p f) := by
   refine ⟨by rw [List.length_modify]; exact h.len, by rw [balanced_modify_same f hfn]; exact h.bal, ?_, ?_, ?_⟩
